@@ -309,13 +309,27 @@ func (g *gen) genSpec(k int) *ModSpec {
 		c := pick(g, by[kk], "import-target")
 		if kk == kFunc && g.pct(40, "prefer-re-export") {
 			// functions that are imports in the exporting instance: resolution has to follow the chain
-			var re []cand
+			var re, deep []cand
 			for _, x := range by[kFunc] {
 				if x.ex.f.def.name != x.mod {
 					re = append(re, x)
+					if g.m.live[x.mod].reexportHazard(x.name) { // ... and the definer has function imports itself
+						deep = append(deep, x)
+					}
 				}
 			}
-			if len(re) > 0 {
+			var own []cand // own functions of modules that import functions: importing one starts such a chain
+			for _, x := range by[kFunc] {
+				if x.ex.f.def.name == x.mod && x.ex.f.def.v.nIF > 0 {
+					own = append(own, x)
+				}
+			}
+			switch {
+			case len(deep) > 0:
+				c = pick(g, deep, "deep-re-exported-target")
+			case len(own) > 0 && g.pct(60, "prefer-function-of-importing-module"):
+				c = pick(g, own, "function-of-importing-module")
+			case len(re) > 0:
 				c = pick(g, re, "re-exported-target")
 			}
 		}
@@ -422,6 +436,12 @@ func (g *gen) genSpec(k int) *ModSpec {
 			mutInt = append(mutInt, i)
 		}
 	}
+	var mutFuncref []int
+	for i, t := range v.gt {
+		if t.mut && t.vt == wasmenc.FuncRef {
+			mutFuncref = append(mutFuncref, i)
+		}
+	}
 	var ftables []int
 	for i, e := range v.telem {
 		if e == wasmenc.FuncRef {
@@ -449,12 +469,17 @@ func (g *gen) genSpec(k int) *ModSpec {
 		if len(ftables) > 0 {
 			kinds = append(kinds, "tset")
 		}
+		if len(mutFuncref) > 0 {
+			kinds = append(kinds, "gsetf")
+		}
 		if len(kinds) == 0 {
 			return Op{}, false
 		}
 		switch kk := pick(g, kinds, label); kk {
 		case "call":
 			return Op{K: kk, A: int64(g.n(0, callable-1, label+"-callee"))}, true
+		case "gsetf":
+			return Op{K: kk, A: int64(pick(g, mutFuncref, label+"-global")), C: int64(g.n(0, nF, label+"-func"))}, true
 		case "ginc":
 			return Op{K: kk, A: int64(pick(g, mutInt, label+"-global"))}, true
 		case "gsetc":
@@ -580,6 +605,22 @@ func (g *gen) genSpec(k int) *ModSpec {
 	}
 
 	// ---- excluded classes (open findings; see check.json and the dedicated tests) ----
+	// findDangle: a module with a start function never stores one of its own functions into an
+	// imported funcref global (if the start function traps, nothing keeps the instance alive).
+	if s.Start != nil {
+		fix := func(ops []Op) {
+			for i := range ops {
+				if o := &ops[i]; o.K == "gsetf" && int(o.A) < v.nIG && int(o.C) > v.nIF {
+					o.C = int64(g.n(0, v.nIF, "own-function-replaced"))
+					evid.Label("excluded:own-function-into-imported-funcref-global-of-module-with-start", 1)
+				}
+			}
+		}
+		fix(s.Start.Ops)
+		for i := range s.Funcs {
+			fix(s.Funcs[i].Ops)
+		}
+	}
 	for iter := 0; iter < 10; iter++ {
 		p := g.m.plan(s, s.Name)
 		if !p.specCompat {
